@@ -134,6 +134,19 @@ func TestVerifC15Decoders(t *testing.T) {
 		judge(t, 2, append([]byte("SBM1"), h...), "legacy manifest header with hostile length")
 		judge(t, 3, append(append([]byte("SBX1"), 0, 3, 'a', 'b', 'c'), append(h, h...)...), "legacy file header with hostile size")
 	}
+	// a length prefix far beyond what follows, with MORE than one read step of payload delivered
+	// before the input ends (memory must follow the bytes received, not the announced length)
+	for _, claimed := range []uint32{1 << 29, 0xfffffff0} {
+		for _, delivered := range []int{65535, 65536, 65537, 66000, 200000} {
+			body := verifkit.Content(uint64(claimed)+uint64(delivered), delivered)
+			judge(t, 1, append(append([]byte("SBC1"), be32b(claimed)...), body...), fmt.Sprintf("control header announcing %d bytes of manifest, %d delivered", claimed, delivered))
+			judge(t, 2, append(append([]byte("SBM1"), be32b(claimed)...), body...), fmt.Sprintf("legacy manifest header announcing %d bytes, %d delivered", claimed, delivered))
+			ri := append([]byte{controlTypeFileResumeInfo, 0, 0}, be64b(7)...)
+			ri = append(append(ri, be32b(3)...), be32b(claimed)...)
+			judge(t, 0, append(ri, body...), fmt.Sprintf("FileResumeInfo announcing a bitmap of %d bytes, %d delivered", claimed, delivered))
+		}
+	}
+	rec.NonTrivial("announced-length-vs-delivered")
 	// (b) random and structured-random input
 	rapid.Check(t, func(rt *rapid.T) {
 		dec := rapid.IntRange(0, len(c15Decoders)-1).Draw(rt, "decoder")
